@@ -8,14 +8,15 @@ differential, the reference model R arbitrates disagreements (DESIGN 2.6).
 
 from mc import backends, compare, core, diff, explorer, inputs, menus
 from mc import hist as H
+from mc.hist import C, V, O, M, F
 
 PROP = "C01"
 
 
 def tier_cfg(tier):
     if tier == "quick":
-        return {"depth": 2, "kd": 2, "ke": 1, "slice_depth": 0, "d_rows": inputs.D_ROWS_Q, "e_rows": inputs.E_ROWS_Q}
-    return {"depth": 2, "kd": 3, "ke": 2, "slice_depth": 3, "d_rows": inputs.D_ROWS, "e_rows": inputs.E_ROWS}
+        return {"depth": 2, "kd": 2, "ke": 1, "slice_depth": 0, "chain_depth": 3, "d_rows": inputs.D_ROWS_Q, "e_rows": inputs.E_ROWS_Q}
+    return {"depth": 2, "kd": 3, "ke": 2, "slice_depth": 3, "chain_depth": 4, "d_rows": inputs.D_ROWS, "e_rows": inputs.E_ROWS}
 
 
 def slice_menu(cols, roles, depth, hist):
@@ -36,6 +37,32 @@ def slice_menu(cols, roles, depth, hist):
     items += menus.join_items(cols, roles, depth, jointypes=("LEFT", "FULL"), rights=[menus.E_HIST])
     items += menus.concat_items(cols, roles, depth)[:2]
     items += menus.cdata_items(cols, roles)
+    return items
+
+
+def chain_menu(cols, roles, depth, hist):
+    """extend chains the builder cannot fuse but the SQL generator merges: plain / windowed / ordered-window
+    extends that create, read and overwrite each other's columns, plus the column selections that prune them"""
+    K, N = menus._pick(cols, roles)
+    if not N:
+        return []
+    A = N[0]
+    z = menus._new(cols)
+    made = [c for c in cols if c.startswith("z")]
+    pb = [K[0]] if K else 1
+    items = [
+        {"op": "extend", "ops": {z: O("+", C(A), V(1))}},
+        {"op": "extend", "ops": {z: M("sum", C(A))}, "partition_by": pb},
+        {"op": "extend", "ops": {z: F("_row_number")}, "partition_by": pb, "order_by": [A], "reverse": []},
+        {"op": "extend", "ops": {A: O("+", C(A), V(1))}},
+    ]
+    if made:
+        last = made[-1]
+        items.append({"op": "extend", "ops": {z: O("*", C(last), V(2))}})
+        items.append({"op": "extend", "ops": {last: O("+", C(last), C(A))}})
+        items.append({"op": "extend", "ops": {z: M("max", C(last))}, "partition_by": pb})
+        if K:
+            items.append({"op": "select_columns", "columns": [K[0], last]})
     return items
 
 
@@ -82,6 +109,17 @@ def run(tier):
         st["confluences"] += s2["confluences"]
         for k, v in s2["rejected_transitions"].items():
             st["rejected_transitions"][k] = st["rejected_transitions"].get(k, 0) + v
+    if cfg.get("chain_depth"):
+        ex3 = explorer.Explorer(chain_menu)
+        st3 = ex3.run(cfg["chain_depth"])
+        seen_h = {H.hist_key(h) for h in hists}
+        add3 = [s.hist for s in st3 if H.hist_key(s.hist) not in seen_h]
+        hists += add3
+        s3 = ex3.stats()
+        extra.update({"chain_depth": cfg["chain_depth"], "chain_states": s3["states"], "chain_new_states": len(add3)})
+        st["states"] += len(add3)
+        st["transitions"] += s3["transitions"]
+        st["confluences"] += s3["confluences"]
     hists = core.rotate(hists, run.seed)
     open_ids = list(run.open_findings)
     for p in core.pmap(work, [(c, cfg, open_ids) for c in core.chunks(hists, 40)]):
@@ -101,6 +139,7 @@ def run(tier):
         exhaustive=True,
         rule=f"all pipelines reachable in <= {cfg['depth']} builder calls over the core menu"
         + (f" plus <= {cfg['slice_depth']} calls over the SQL-translation slice" if cfg["slice_depth"] else "")
+        + f" plus <= {cfg['chain_depth']} calls over the extend-chain slice (plain / windowed / ordered extends creating, reading and overwriting each other's columns)"
         + f", each on all multisets of <= {cfg['kd']} rows over the {len(cfg['d_rows'])}-row alphabet of d (and <= {cfg['ke']} rows over the {len(cfg['e_rows'])}-row alphabet of e when read); a case is one (pipeline, input) pair executed on Pandas and on SQLite",
         extra=extra,
     )
